@@ -92,12 +92,11 @@ Select(reg, prefs, r) ==
 \* get_all_applicable_engines: the names of the preference list that qualify
 SelectAll(reg, prefs, r) == {prefs[i] : i \in QualIdx(reg, prefs, r)}
 
-\* resulting kinds: rk is a set of rows [e, ck, in, out] recorded from the real
-\* resulting_problem_kind (out = [k |-> "kind", f |-> features, x |-> ""] or [k |-> "exc", f |-> {}, x |-> class])
-RK(rk, n, feats, ck) ==
-   LET rows == {w \in rk : w.e = n /\ w.ck = ck /\ w.in = feats}
-   IN (CHOOSE w \in rows : TRUE).out
-HasRK(rk, n, feats, ck) == \E w \in rk : w.e = n /\ w.ck = ck /\ w.in = feats
+\* resulting kinds: rk[<<engine, compilation kind>>] is a sequence of rows [in, out] recorded from the
+\* real resulting_problem_kind: for the kind with features `in` it returned
+\* out = [k |-> "kind", f |-> features, x |-> ""] or raised, out = [k |-> "exc", f |-> {}, x |-> class]
+HasRK(rk, n, feats, ck) == <<n, ck>> \in DOMAIN rk /\ \E j \in DOMAIN rk[<<n, ck>>] : rk[<<n, ck>>][j].in = feats
+RK(rk, n, feats, ck) == LET rows == rk[<<n, ck>>] IN rows[CHOOSE j \in DOMAIN rows : rows[j].in = feats].out
 
 \* the pipeline for compilation kinds cks from kind feats:
 \*   [k |-> "pipeline", stages, kinds]   stages[i] selected for kinds[i], kinds[i+1] produced by stage i
